@@ -47,6 +47,7 @@ def run(ck, F, E):
     common.successor_rule(ck, F, "C05")
     C13.range_rule(ck, F, "C05")
     C13.errpos_rules(ck, F, "C05")
+    C13.same_text_rule(ck, F, "C05")
 
 
 def run_thorough(ck, F, E):
